@@ -433,7 +433,7 @@ func Walk(p *Program, srcs []string, hs *HostSpec, o WalkOpts) (*Mismatch, WalkS
 			if mo.K == OEnd {
 				st.EndsReached++
 				// absorbing end (C12): any argument, nothing happens any more
-				afterEnd := func(x *run, a int, i int) bool {
+				afterEnd := func(x *run, a int, i int, atEnd string) bool {
 					ro := x.r.Next(a)
 					st.Steps++
 					if ro.Panic != "" {
@@ -442,6 +442,11 @@ func Walk(p *Program, srcs []string, hs *HostSpec, o WalkOpts) (*Mismatch, WalkS
 					}
 					if ro.K != OEnd {
 						fail("after-end", fmt.Sprintf("call %d after the end, Next(%d): expected end, got %s", i+1, a, ro.String()))
+						return false
+					}
+					// the ended dialogue stays what it is: a snapshot taken after further calls is the snapshot taken at the end
+					if now := snapshotString(x.r); now != atEnd {
+						fail("after-end-snapshot", fmt.Sprintf("call %d after the end, Next(%d): a snapshot taken now (%s) differs from the one taken when the end was reported (%s)", i+1, a, now, atEnd))
 						return false
 					}
 					if al, bl := strings.Join(m.Log, ";"), strings.Join(x.log, ";"); o.CompareLog && al != bl {
@@ -458,11 +463,12 @@ func Walk(p *Program, srcs []string, hs *HostSpec, o WalkOpts) (*Mismatch, WalkS
 				}
 				if o.AfterEnd > 0 && o.StateKey != nil {
 					k0 := o.StateKey(r, storer)
+					atEnd0 := snapshotString(r)
 					changed := false
 					for _, a := range o.AfterEndArgs {
 						args = append(args, a)
 						trace = append(trace, fmt.Sprintf("after-end Next(%d)", a))
-						if !afterEnd(x, a, 0) {
+						if !afterEnd(x, a, 0, atEnd0) {
 							return
 						}
 						if o.StateKey(r, storer) != k0 {
@@ -493,10 +499,11 @@ func Walk(p *Program, srcs []string, hs *HostSpec, o WalkOpts) (*Mismatch, WalkS
 							y.r.Next(a)
 						}
 						args = append([]int{}, base...)
+						atEndY := snapshotString(y.r)
 						for i, q := 0, seq; i < o.AfterEnd; i, q = i+1, q/n {
 							a := o.AfterEndArgs[q%n]
 							args = append(args, a)
-							if !afterEnd(y, a, i) {
+							if !afterEnd(y, a, i, atEndY) {
 								return
 							}
 						}
